@@ -1576,6 +1576,17 @@ class Interp:
             return Lst([x for x in self.iterate(args[1]) if self.truth(self.call_value(fnv, [x], {}))])
         if n == "map":
             return Lst([self.call_value(args[0], [x], {}) for x in self.iterate(args[1])])
+        if n in ("math.floor", "math.ceil", "math.trunc") and isinstance(args[0], Lin) and args[0].is_const():
+            import math as _m
+            return Lin.num(getattr(_m, n.split(".")[1])(args[0].const))
+        if n == "statistics.median":
+            items = self._sort([self.num(x) for x in self.iterate(args[0])])
+            if not items:
+                raise PyRaise("StatisticsError", node)
+            k = len(items)
+            if k % 2 == 1:
+                return items[k // 2]
+            return (items[k // 2 - 1] + items[k // 2]).scale(Fraction(1, 2))
         if n in ("typing.cast", "cast"):
             return args[1]
         if n in ("io.open", "open"):
